@@ -50,10 +50,10 @@ class Ctx:
         self.x_live = sel(live, self.x) if (self.uses_x and N) else z3.BoolVal(True)
         if N:
             st_t = sel(A.stamp, self.t); st_x = sel(A.stamp, self.x)
-            # id of a removed slot: any stamp that was issued for the slot before (0 <= g <= -(stamp+1))
-            s.add(self.tg >= 0, self.xg >= 0)
-            if self.uses_t: s.add(z3.Implies(z3.Not(self.t_live), self.tg <= -(st_t + 1)))
-            if self.uses_x: s.add(z3.Implies(z3.Not(self.x_live), self.xg <= -(st_x + 1)))
+            # id of a removed slot: any stamp that was issued for the slot before (0 <= g <= -(stamp+1)), or the id that the arena
+            # itself reports for the removed node (get_node_id / iter on a removed node carry the slot's current, negative stamp)
+            if self.uses_t: s.add(z3.Implies(z3.Not(self.t_live), z3.Or(z3.And(self.tg >= 0, self.tg <= -(st_t + 1)), self.tg == st_t)))
+            if self.uses_x: s.add(z3.Implies(z3.Not(self.x_live), z3.Or(z3.And(self.xg >= 0, self.xg <= -(st_x + 1)), self.xg == st_x)))
             self.id_t = mk_id(self.t, z3.If(self.t_live, st_t, self.tg))
             self.id_x = mk_id(self.x, z3.If(self.x_live, st_x, self.xg))
         if op in UNARY: s.add(self.x_live)       # valid call: the node is live
@@ -370,6 +370,8 @@ def situations(ctx):
         w['same_node'] = (t == x)
         w['t_removed'] = z3.Not(ctx.t_live)
         w['x_removed'] = z3.Not(ctx.x_live)
+        w['x_removed_id_from_arena'] = z3.And(z3.Not(ctx.x_live), ctx.xg < 0)
+        w['t_removed_id_from_arena'] = z3.And(z3.Not(ctx.t_live), ctx.tg < 0)
         w['x_ancestor_of_t'] = z3.And(both, is_ancestor_or_self(pre, x, t))
         w['x_grandparent_of_t'] = z3.And(both, ts('parent'), sel(pre.some['parent'], sel(pre.idx['parent'], t)),
                                          sel(pre.idx['parent'], sel(pre.idx['parent'], t)) == x) if N >= 3 else None
